@@ -6,8 +6,8 @@
    by the corresponding labelled steps of LokyExecutor.tla, the other steps of the specification (control labels,
    operations that are not logged) being taken silently whenever the specification allows them.
 
-   An event is a record [w, a, o, x]:  w = "U" | "M" | "F" | "E" | a worker in Pids,  a = operation,  o = "ok" | "timeout",
-   x = the worker an operation is about (spawn, kill, join, crash) or "".
+   An event is a record [w, a, o, x, t]:  w = "U" | "M" | "F" | "E" | "C" | a worker in Pids,  a = operation,  o = "ok" | "timeout",
+   x = the worker an operation is about (spawn, kill, join, crash) or "",  t = the task a successful cancel() was about or 0.
    A rejection means: the code did something in an order, or in a state, the specification does not allow.           *)
 EXTENDS LokyExecutor, TraceLEData
 
@@ -119,7 +119,8 @@ EnvSilent == UNCHANGED l /\ e0 /\ UNCHANGED alive
 TraceNext ==
   \/ \E p \in Pids : WorkerEvent(p) \/ WorkerSilent(p)
   \/ FeederEvent \/ FeederSilent \/ UserEvent \/ UserSilent \/ ManagerEvent \/ ManagerSilent \/ EnvEvent \/ EnvSilent
-  \/ (UNCHANGED l /\ canceller)
+  \/ (Is("C", "cancel") /\ Adv /\ c0 /\ fut'[Ev.t] = "cancelled" /\ fut[Ev.t] = "pending")     \* a cancel() that returned True
+  \/ (UNCHANGED l /\ c0 /\ cancels' = cancels)                                                  \* the canceller has nothing left to do
 
 TraceInit == Init /\ l = 1 /\ TLCSet(1, 1)
 TraceSpec == TraceInit /\ [][TraceNext]_tvars
